@@ -176,7 +176,7 @@ def run(ctx, prop, props_file, rule, distribution_note):
         if len(f) == 3 and f[0] == "stat":
             stats[f[1]] = int(f[2])
 
-    pr = C.coq_props([props_file])
+    pr = C.coq_props(props_file if isinstance(props_file, list) else [props_file])
     C.coq_obligation_violations(ctx, pr, prop)
     coqchk = None
     if ctx.tier == "thorough" and not pr["failed"]:
